@@ -1,5 +1,5 @@
 """Sidecar contracts of the real functions of /repo (no file of the repository is edited)."""
-ALL = ['c_node', 'c_composed', 'c_adopt', 'c_frames', 'c_containers', 'c_merge', 'c_eval', 'c_structural', 'b_merge', 'b_eval']
+ALL = ['c_node', 'c_composed', 'c_adopt', 'c_frames', 'c_containers', 'c_merge', 'c_eval', 'c_config', 'c_function', 'c_structural', 'b_merge', 'b_eval']
 
 # evidence level per property (MANIFEST.level_claimed.category must agree)
 LEVELS = {'C09': 'other', 'C10': 'proof', 'C02': 'other', 'C04': 'other', 'C05': 'other', 'C08': 'other', 'C15': 'other', 'C03': 'proof', 'C07': 'proof', 'C17': 'proof'}
